@@ -59,13 +59,24 @@ size_t merge_existing_groups(econf_file *dest_kf, struct file_entry **fe, econf_
       // Check if the group has changed in the last iteration
       if (i && (i == uf->length ||
 		strcmp(uf->file_entry[i].group, uf->file_entry[i - 1].group))) {
+	// A group can be opened more than once in uf. New keys are appended
+	// to its last block only.
+	bool last_block = true;
+	for (size_t l = i; l < uf->length; l++) {
+	  if (!strcmp(uf->file_entry[l].group, uf->file_entry[i - 1].group)) {
+	    last_block = false;
+	    break;
+	  }
+	}
 	for (size_t j = etc_start; j < ef->length; j++) {
 	  // Check for matching groups
 	  if (!strcmp(uf->file_entry[i - 1].group, ef->file_entry[j].group)) {
 	    new_key = true;
-	    for (size_t k = merge_length; k < i + tmp; k++) {
+	    // Regarding all blocks of this group which have been merged so far
+	    for (size_t k = 0; k < i + tmp; k++) {
 	      // If an existing key is found in ef take the value from ef
-	      if (!strcmp((*fe)[k].key, ef->file_entry[j].key)) {
+	      if (!strcmp((*fe)[k].group, ef->file_entry[j].group) &&
+		  !strcmp((*fe)[k].key, ef->file_entry[j].key)) {
 		free((*fe)[k].value);
 		(*fe)[k].value = ef->file_entry[j].value ? strdup(ef->file_entry[j].value) : strdup("");
 		new_key = false;
@@ -73,7 +84,7 @@ size_t merge_existing_groups(econf_file *dest_kf, struct file_entry **fe, econf_
 	      }
 	    }
 	    // If a new key is found for an existing group append it to the group
-	    if (new_key)
+	    if (new_key && last_block)
 	      (*fe)[i + added_keys++] = cpy_file_entry(dest_kf, ef->file_entry[j]);
 	  }
 	}
